@@ -1428,6 +1428,18 @@ impl<C: Cursor> MergingCursor<C> {
     }
 }
 
+impl<C: Cursor> MergingCursor<C> {
+//@ extract sst/src/merging_cursor.rs | impl MergingCursor<C> :: fn new
+//@ ret r
+//@ pre <<
+        1 <= cursors@.len() <= 0x3fff_ffff_ffff_ffff, all_base(cursors@), all_sorted(cursors@), distinct(cursors@),
+//@ >>
+//@ post <<
+        r is Ok ==> r->Ok_0.wf() && r->Ok_0.pos() == -1 && r->Ok_0.ents() == merged(cursors@),
+//@ >>
+//@ end
+}
+
 impl<C: Cursor> Cursor for MergingCursor<C> {
     spec fn ents(&self) -> Seq<Ent> { merged(self.cursors@) }
     spec fn pos(&self) -> int {
